@@ -135,6 +135,60 @@ def thread_case(build, kind, explicit):
         shutil.rmtree(d, ignore_errors=True)
 
 
+INTERVAL_PROG = '''\
+import sys, time
+try:
+    profile
+except NameError:
+    def profile(f):
+        return f
+
+
+@profile
+def early():
+    return 1
+
+
+@profile
+def late():
+    return 2
+
+
+early()
+time.sleep(1.7)          # at least one periodic dump (-i 1) is written meanwhile
+late()
+late()
+%s
+'''
+
+
+def interval_case(build, opts, kind):
+    """-i: a periodic dump written while the program runs must not end the profiling — what runs after it is in the final file"""
+    d = tempfile.mkdtemp(prefix='c06i-', dir=SCRATCH_ROOT)
+    try:
+        with open(os.path.join(d, 'prog.py'), 'w') as fh:
+            fh.write(INTERVAL_PROG % ENDINGS[kind])
+        e = real_env(build)
+        p = subprocess.run([PY, '-m', 'kernprof'] + opts + ['-i', '1', 'prog.py'], cwd=d, env=e, capture_output=True, text=True, timeout=120)
+        out = 'prog.py.lprof' if '-l' in opts else 'prog.py.prof'
+        seen = None
+        if os.path.exists(os.path.join(d, out)):
+            if '-l' in opts:
+                code = ('import sys,json,line_profiler;s=line_profiler.load_stats(sys.argv[1]);'
+                        'print(json.dumps(sorted([k[2], max([h for (_l,h,_t) in v] or [0])] for k, v in s.timings.items())))')
+            else:
+                code = ('import sys,json,pstats;s=pstats.Stats(sys.argv[1]);'
+                        'print(json.dumps(sorted([k[2], v[0]] for k, v in s.stats.items() if k[0].endswith("prog.py") and k[2] in ("early", "late"))))')
+            q = subprocess.run([PY, '-c', code, out], cwd=d, env=e, capture_output=True, text=True)
+            try:
+                seen = json.loads(q.stdout.strip().splitlines()[-1])
+            except Exception:
+                seen = {'unloadable': q.stderr[-300:]}
+        return {'rc': p.returncode, 'recorded': seen, 'stderr_tail': p.stderr[-300:]}
+    finally:
+        shutil.rmtree(d, ignore_errors=True)
+
+
 THREAD_EXPECTED = {'worker': [[2, 1], [3, 1], [4, 1], [5, 1]], 'main_part': [[2, 1], [3, 1], [4, 1], [5, 1]]}
 
 
@@ -235,8 +289,17 @@ def run(ctx):
             ctx.fail('two threads: the results written at the end do not hold every executed line of both profiled functions',
                      {'finding_class': None, 'thread_case': {'kind': kind, 'explicit_profiler': explicit}, 'hits_reported': r['hits'], 'hits_executed': THREAD_EXPECTED, 'real': r})
     ctx.coverage['thread_cases'] = len(tcs)
+    # -i: a periodic dump in the middle of the run
+    ics = [(o, k) for o in ([], ['-b'], ['-l']) for k in (('none', 'exit') if not ctx.quick else ('none',))] + [([], 'exit')]
+    with cf.ThreadPoolExecutor(max_workers=8) as ex:
+        ires = list(ex.map(lambda c: interval_case(build, *c), ics))
+    for (opts, kind), r in zip(ics, ires):
+        if r['recorded'] != [['early', 1], ['late', 2]]:
+            ctx.fail('-i: what ran after a periodic dump is not in the final results', {'finding_class': None, 'interval_case': {'options': opts + ['-i', '1'], 'ending': kind},
+                                                                                         'recorded': r['recorded'], 'executed': [['early', 1], ['late', 2]], 'real': r})
+    ctx.coverage['interval_cases'] = len(ics)
     ctx.coverage.update({
-        'evaluations': len(scs) + len(cli) + len(tcs), 'distinct_nontrivial': len(nontrivial),
+        'evaluations': len(scs) + len(cli) + len(tcs) + len(ics), 'distinct_nontrivial': len(nontrivial),
         'rule': '9 run modes x {normal end, sys.exit, KeyboardInterrupt, uncaught ValueError} x crash point k of a loop of n=5 (quick: 3 points; thorough: every k in -1..n) '
                 '+ random (n, k, -i / -v) + one real process per (mode, ending) through `python -m kernprof` and through LINE_PROFILE=1 + a two-thread program per ending; '
                 'non-trivial = the program really ends at the crash point',
